@@ -3,8 +3,8 @@
 # exists) to a scratch copy of /repo in turn (tools/try_diff.py; /repo itself is not touched), run the quick check of
 # its property and print whether it was caught, with the first violation key.
 cd /verif
-for d in seeded/seed-* seeded/seed2-*; do
-  id=$(basename $d); prop=$(echo $id | sed 's/seed2\?-\(C[0-9]*\).*/\1/')
+for d in seeded/seed-* seeded/seed2-* seeded/seed3-*; do
+  id=$(basename $d); prop=$(echo $id | sed 's/seed[23]\?-\(C[0-9]*\).*/\1/')
   p=/verif/$d/patch.diff; [ -f /verif/$d/patch_rebased.diff ] && p=/verif/$d/patch_rebased.diff
   out=$(tools/try_diff.py $p $prop --slot seeds 2>&1)
   if echo "$out" | grep -q "^$prop VIOLATION"; then echo "$id caught: $(echo "$out" | grep 'violation:' | head -1 | sed 's/.*violation: \[\([^]]*\)\].*/\1/')"; else echo "$id MISSED"; echo "$out" | tail -3; fi
